@@ -298,4 +298,141 @@ theorem fromNamesLoop_spec (t : Table) (hk : KeysNodup t) (hdet : NameDetermines
             exact Or.inl (Or.inr (this ▸ hp))
           · exact Or.inr ⟨m, hm, ms', hmem', hp⟩
 
+/-! ### auto-enabling never enables a name twice -/
+
+theorem fromName_name (t : Table) (e : String) (x : Plugin) (h : fromName t e = .ok x) : x.name = e :=
+  (fromName_ok_registered t e x h).2
+
+/-- invariant of the auto-enabling loops: no name twice in either list, and `enabled` is exactly the set of enabled names -/
+structure EnInv (c : Cfg) : Prop where
+  fsNodup : (c.fs.map (·.name)).Nodup
+  stNodup : (c.st.map (·.name)).Nodup
+  sound : ∀ n, n ∈ c.fs.map (·.name) ∨ n ∈ c.st.map (·.name) → n ∈ c.enabled
+  complete : ∀ n ∈ c.enabled, n ∈ c.fs.map (·.name) ∨ n ∈ c.st.map (·.name)
+
+theorem nodup_append_new (l : List Plugin) (x : Plugin) (h : (l.map (·.name)).Nodup) (hx : x.name ∉ l.map (·.name)) :
+    ((l ++ [x]).map (·.name)).Nodup := by
+  rw [List.map_append, List.nodup_append]
+  refine ⟨h, by simp, ?_⟩
+  intro a ha b hb
+  simp only [List.map_cons, List.map_nil, List.mem_singleton] at hb
+  rw [hb]; intro hab; exact hx (hab ▸ ha)
+
+theorem enableOne_inv (fsT stT : Table) (c c' : Cfg) (e : String) (hi : EnInv c) (h : enableOne fsT stT c e = .ok c') :
+    EnInv c' ∧ c.fs <+: c'.fs ∧ c.st <+: c'.st ∧ (∀ n ∈ c.enabled, n ∈ c'.enabled) ∧ e ∈ c'.enabled := by
+  unfold enableOne at h
+  by_cases hc : c.enabled.contains e = true
+  · simp only [hc, if_true, Except.ok.injEq] at h
+    subst h
+    exact ⟨hi, List.prefix_refl _, List.prefix_refl _, fun n hn => hn, by simpa using hc⟩
+  · simp only [hc, Bool.false_eq_true, if_false] at h
+    have hne : e ∉ c.enabled := by simpa using hc
+    have hnf : e ∉ c.fs.map (·.name) := fun hm => hne (hi.sound e (Or.inl hm))
+    have hns : e ∉ c.st.map (·.name) := fun hm => hne (hi.sound e (Or.inr hm))
+    cases h1 : fromName fsT e with
+    | error a =>
+      cases h2 : fromName stT e with
+      | error b => simp [h1, h2] at h
+      | ok y =>
+        simp only [h1, h2, Except.ok.injEq] at h
+        subst h
+        have hy := fromName_name stT e y h2
+        refine ⟨⟨hi.fsNodup, nodup_append_new c.st y hi.stNodup (hy ▸ hns), ?_, ?_⟩, List.prefix_refl _, List.prefix_append _ _,
+          fun n hn => by simp [hn], by simp⟩
+        · intro n hn
+          simp only [List.map_append, List.mem_append, List.map_cons, List.map_nil, List.mem_cons, List.not_mem_nil, or_false] at hn ⊢
+          rcases hn with hn | hn | hn
+          · exact Or.inr (hi.sound n (Or.inl hn))
+          · exact Or.inr (hi.sound n (Or.inr hn))
+          · exact Or.inl (hn.trans hy)
+        · intro n hn
+          simp only [List.mem_cons] at hn
+          simp only [List.map_append, List.mem_append, List.map_cons, List.map_nil, List.mem_singleton]
+          rcases hn with rfl | hn
+          · exact Or.inr (Or.inr hy.symm)
+          · rcases hi.complete n hn with h | h
+            · exact Or.inl h
+            · exact Or.inr (Or.inl h)
+    | ok x =>
+      have hx := fromName_name fsT e x h1
+      cases h2 : fromName stT e with
+      | error b =>
+        simp only [h1, h2, Except.ok.injEq] at h
+        subst h
+        refine ⟨⟨nodup_append_new c.fs x hi.fsNodup (hx ▸ hnf), hi.stNodup, ?_, ?_⟩, List.prefix_append _ _, List.prefix_refl _,
+          fun n hn => by simp [hn], by simp⟩
+        · intro n hn
+          simp only [List.map_append, List.mem_append, List.map_cons, List.map_nil, List.mem_cons, List.not_mem_nil, or_false] at hn ⊢
+          rcases hn with (hn | hn) | hn
+          · exact Or.inr (hi.sound n (Or.inl hn))
+          · exact Or.inl (hn.trans hx)
+          · exact Or.inr (hi.sound n (Or.inr hn))
+        · intro n hn
+          simp only [List.mem_cons] at hn
+          simp only [List.map_append, List.mem_append, List.map_cons, List.map_nil, List.mem_singleton]
+          rcases hn with rfl | hn
+          · exact Or.inl (Or.inr hx.symm)
+          · rcases hi.complete n hn with h | h
+            · exact Or.inl (Or.inl h)
+            · exact Or.inr h
+      | ok y =>
+        have hy := fromName_name stT e y h2
+        simp only [h1, h2, Except.ok.injEq] at h
+        subst h
+        refine ⟨⟨nodup_append_new c.fs x hi.fsNodup (hx ▸ hnf), nodup_append_new c.st y hi.stNodup (hy ▸ hns), ?_, ?_⟩,
+          List.prefix_append _ _, List.prefix_append _ _, fun n hn => by simp [hn], by simp⟩
+        · intro n hn
+          simp only [List.map_append, List.mem_append, List.map_cons, List.map_nil, List.mem_cons, List.not_mem_nil, or_false] at hn ⊢
+          rcases hn with (hn | hn) | (hn | hn)
+          · exact Or.inr (hi.sound n (Or.inl hn))
+          · exact Or.inl (hn.trans hx)
+          · exact Or.inr (hi.sound n (Or.inr hn))
+          · exact Or.inl (hn.trans hy)
+        · intro n hn
+          simp only [List.mem_cons] at hn
+          simp only [List.map_append, List.mem_append, List.map_cons, List.map_nil, List.mem_singleton]
+          rcases hn with rfl | hn
+          · exact Or.inl (Or.inr hx.symm)
+          · rcases hi.complete n hn with h | h
+            · exact Or.inl (Or.inl h)
+            · exact Or.inr (Or.inl h)
+
+theorem enableList_inv (fsT stT : Table) (es : List String) (c c' : Cfg) (hi : EnInv c) (h : enableList fsT stT c es = .ok c') :
+    EnInv c' ∧ c.fs <+: c'.fs ∧ c.st <+: c'.st ∧ (∀ n ∈ c.enabled, n ∈ c'.enabled) ∧ ∀ e ∈ es, e ∈ c'.enabled := by
+  induction es generalizing c with
+  | nil => simp only [enableList, Except.ok.injEq] at h; subst h; exact ⟨hi, List.prefix_refl _, List.prefix_refl _, fun n hn => hn, by simp⟩
+  | cons e es ih =>
+    unfold enableList at h
+    cases h1 : enableOne fsT stT c e with
+    | error x => rw [h1] at h; cases h
+    | ok c1 =>
+      rw [h1] at h
+      obtain ⟨i1, p1, q1, m1, e1⟩ := enableOne_inv fsT stT c c1 e hi h1
+      obtain ⟨i2, p2, q2, m2, e2⟩ := ih c1 i1 h
+      refine ⟨i2, p1.trans p2, q1.trans q2, fun n hn => m2 n (m1 n hn), ?_⟩
+      intro x hx
+      simp only [List.mem_cons] at hx
+      rcases hx with rfl | hx
+      · exact m2 x e1
+      · exact e2 x hx
+
+theorem enableDets_inv (fsT stT : Table) (ds : List Plugin) (c c' : Cfg) (hi : EnInv c) (h : enableDets fsT stT c ds = .ok c') :
+    EnInv c' ∧ c.fs <+: c'.fs ∧ c.st <+: c'.st ∧ (∀ n ∈ c.enabled, n ∈ c'.enabled) ∧ ∀ d ∈ ds, ∀ e ∈ d.required, e ∈ c'.enabled := by
+  induction ds generalizing c with
+  | nil => simp only [enableDets, Except.ok.injEq] at h; subst h; exact ⟨hi, List.prefix_refl _, List.prefix_refl _, fun n hn => hn, by simp⟩
+  | cons d ds ih =>
+    unfold enableDets at h
+    cases h1 : enableList fsT stT c d.required with
+    | error x => rw [h1] at h; cases h
+    | ok c1 =>
+      rw [h1] at h
+      obtain ⟨i1, p1, q1, m1, e1⟩ := enableList_inv fsT stT d.required c c1 hi h1
+      obtain ⟨i2, p2, q2, m2, e2⟩ := ih c1 i1 h
+      refine ⟨i2, p1.trans p2, q1.trans q2, fun n hn => m2 n (m1 n hn), ?_⟩
+      intro x hx e he
+      simp only [List.mem_cons] at hx
+      rcases hx with rfl | hx
+      · exact m2 e (e1 e he)
+      · exact e2 x hx e he
+
 end Scalibr.Registry
